@@ -191,7 +191,7 @@ Section Facts.
 
   (* The C02 statement for offset = 0 (offset_seeds reduces the other case to it). *)
   Theorem solve_t_finite_spec d o t s p v1 :
-    min_iter o <= max_iter o -> 0 < max_iter o ->
+    min_iter o <= max_iter o -> 0 <= max_iter o ->
     py_pos (length (status s)) t = Some p ->
     offset o = 0 ->
     let c0 := get_check d (vals_of s) p in
@@ -225,8 +225,7 @@ Section Facts.
     rewrite Hc0. cbn [negb]. rewrite andb_false_r. rewrite Hbefore.
     fold N. pose proof (loop_spec d o t p c0 v1 N 0 (log s ++ [EvBefore t])) as HL.
     cbn [st_after chkseq] in HL. rewrite HL; clear HL.
-    - replace (max_iter o <=? 0) with false by lia.
-      destruct (find_first (convk d o t p c0 v1) 1 N) as [k0|] eqn:EF.
+    - destruct (find_first (convk d o t p c0 v1) 1 N) as [k0|] eqn:EF.
       + replace (k0 - 0)%nat with k0 by lia.
         destruct (afterk o t k0 (st_after o t v1 k0)) as [v'' [c|]].
         * unfold with_vals. rewrite <- !app_assoc. reflexivity.
@@ -239,7 +238,7 @@ Section Facts.
 
   (* readable corollaries: the return value, status and iteration count *)
   Corollary solve_t_converges_at_least_k d o t s p v1 k0 :
-    min_iter o <= max_iter o -> 0 < max_iter o ->
+    min_iter o <= max_iter o -> 0 <= max_iter o ->
     py_pos (length (status s)) t = Some p -> offset o = 0 ->
     let c0 := get_check d (vals_of s) p in
     let N := Z.to_nat (max_iter o) in
@@ -275,7 +274,7 @@ Section Facts.
   Qed.
 
   Corollary solve_t_fails_when_no_k d o t s p v1 :
-    min_iter o <= max_iter o -> 0 < max_iter o ->
+    min_iter o <= max_iter o -> 0 <= max_iter o ->
     py_pos (length (status s)) t = Some p -> offset o = 0 ->
     let c0 := get_check d (vals_of s) p in
     let N := Z.to_nat (max_iter o) in
@@ -302,20 +301,21 @@ Section Facts.
     - apply nth_error_upd_neq; auto.
   Qed.
 
-  (* max_iter <= 0: the code as it stands dies with UnboundLocalError after writing 'F' *)
+  (* max_iter = 0 (repaired by the fix for finding #1): no pass, 'F', iterations = 0 = max_iter *)
   Theorem solve_t_maxiter0 d o t s p v1 :
-    min_iter o <= max_iter o -> max_iter o <= 0 ->
+    min_iter o <= max_iter o -> max_iter o = 0 ->
     py_pos (length (status s)) t = Some p -> offset o = 0 ->
     all_finite (get_check d (vals_of s) p) = true ->
     before t (errors o) (catch_first o) 0%nat (vals_of s) = (v1, None) ->
     solve_t_M d o t s =
-      (mkState v1 (upd p Failed (status s)) (iters s) (log s ++ [EvBefore t]), Raise UnboundLocalError).
+      (mkState v1 (upd p Failed (status s)) (upd p (max_iter o) (iters s)) (log s ++ [EvBefore t]),
+       if fail_raise o then Raise NonConvergenceError else Ret false).
   Proof.
     intros Hmm Hmax Hp Hoff Hfin Hb. unfold Solver.solve_t_M.
     replace (max_iter o <? min_iter o) with false by lia. rewrite Hp, Hoff. cbn [Z.eqb].
     rewrite Hfin. cbn [negb]. rewrite andb_false_r, Hb.
-    replace (Z.to_nat (max_iter o)) with 0%nat by lia. cbn [Solver.loop].
-    replace (max_iter o <=? 0) with true by lia. reflexivity.
+    rewrite Hmax. cbn [Z.to_nat Solver.loop Nat.sub st_eqb andb stamp Z.of_nat].
+    destruct (fail_raise o); reflexivity.
   Qed.
 
 End Facts.
